@@ -134,17 +134,13 @@ func UpdatePathAttrs4ByteAs(logger *slog.Logger, msg *bgp.BGPUpdate) {
 		return
 	}
 
+	// RFC 6793 4.2.3: the number of AS numbers is counted as in the decision
+	// process (RFC 4271 9.1.2.2, RFC 5065): an AS_SET counts as one and
+	// confederation segments are not counted.
 	asLen := 0
-	asConfedLen := 0
 	asParams := make([]bgp.AsPathParamInterface, 0, len(asAttr.Value))
 	for _, param := range asAttr.Value {
 		asLen += param.ASLen()
-		switch param.GetType() {
-		case bgp.BGP_ASPATH_ATTR_TYPE_CONFED_SET:
-			asConfedLen++
-		case bgp.BGP_ASPATH_ATTR_TYPE_CONFED_SEQ:
-			asConfedLen += len(param.GetAS())
-		}
 		asParams = append(asParams, param)
 	}
 
@@ -177,31 +173,43 @@ func UpdatePathAttrs4ByteAs(logger *slog.Logger, msg *bgp.BGPUpdate) {
 		}
 	}
 
-	if asLen+asConfedLen < as4Len {
+	if asLen < as4Len {
 		logger.Warn("AS4_PATH is longer than AS_PATH. ignore AS4_PATH",
 			slog.String("Topic", "Table"))
 		return
 	}
 
-	keepNum := asLen + asConfedLen - as4Len
+	// Take as many leading AS numbers and path segments from the AS_PATH as
+	// are needed to make up the difference. Confederation segments count as
+	// zero; they are kept when leading or adjacent to a kept segment.
+	keepNum := asLen - as4Len
 
 	newParams := make([]bgp.AsPathParamInterface, 0, len(asAttr.Value))
+keep:
 	for _, param := range asParams {
-		if keepNum-param.ASLen() >= 0 {
+		switch param.GetType() {
+		case bgp.BGP_ASPATH_ATTR_TYPE_CONFED_SEQ, bgp.BGP_ASPATH_ATTR_TYPE_CONFED_SET:
 			newParams = append(newParams, param)
-			keepNum -= param.ASLen()
+			continue
+		}
+		if keepNum <= 0 {
+			break keep
+		}
+		if n := param.ASLen(); n <= keepNum {
+			newParams = append(newParams, param)
+			keepNum -= n
 		} else {
 			// only SEQ param reaches here
 			newParams = append(newParams, bgp.NewAs4PathParam(param.GetType(), param.GetAS()[:keepNum]))
 			keepNum = 0
 		}
-
-		if keepNum <= 0 {
-			break
-		}
 	}
 
 	for _, param := range as4Params {
+		if len(newParams) == 0 {
+			newParams = append(newParams, param)
+			continue
+		}
 		lastParam := newParams[len(newParams)-1]
 		lastParamAS := lastParam.GetAS()
 		paramType := param.GetType()
